@@ -80,6 +80,14 @@ def replay_behaviour(beh):
                 else:
                     return (('write', k, 'accepted', feature(n)),
                             'op %d %s(%d bits): value %d was accepted' % (i, k, n, val))
+            elif k == 'write_int_overflow':
+                mag = b2i(v[1:])
+                try:
+                    w.write_int(-mag if v[0] else mag, n)
+                except Exception:
+                    return None     # refused; the behaviour ends here
+                return (('write', k, 'accepted', feature(n)),
+                        'op %d write_int(%d bits): value %d was accepted' % (i, n, -mag if v[0] else mag))
             else:
                 raise MachineryError('unknown op ' + k)
         except MachineryError:
